@@ -69,6 +69,31 @@ Section C11.
 
   (* ---------- P3: at most two attempts; 401 on a fresh token becomes 403 ---------- *)
 
+  (* a token issued in some phase of call [id] is one of the tokens issued to call [id] *)
+  Lemma issue_at_id i e h : issue_at E (e :: h) = Some i -> i_id i = ev_id e.
+  Proof.
+    cbn [issue_at]. destruct e as [| |id' m [|st www [| |w]]| | | |]; try discriminate.
+    destruct (is_tok_msg m && (st =? 200)%N); [|discriminate]. intros H. injection H as <-. reflexivity.
+  Qed.
+
+  Lemma call_issues_cons id e h f :
+    existsb f (call_issues E id h) = true -> existsb f (call_issues E id (e :: h)) = true.
+  Proof.
+    unfold call_issues. cbn [issues]. destruct (issue_at E (e :: h)) as [i|]; cbn [ocons filter]; [|auto].
+    destruct (Nat.eqb (i_id i) id); [|auto]. cbn [existsb]. intros ->. apply orb_true_r.
+  Qed.
+
+  Lemma phase_issues_call id h f :
+    existsb f (phase_issues E id h) = true -> existsb f (call_issues E id h) = true.
+  Proof.
+    induction h as [|e h IH]; [discriminate|]. cbn [phase_issues].
+    destruct (is_marker id e); [discriminate|].
+    destruct (Nat.eqb (ev_id e) id) eqn:Ee; [|intros H; apply call_issues_cons; auto].
+    unfold call_issues in *. cbn [issues]. destruct (issue_at E (e :: h)) as [i|] eqn:Ei; cbn [ocons]; [|exact IH].
+    cbn [existsb filter]. rewrite (issue_at_id _ _ _ Ei), Ee. cbn [existsb].
+    intros H. apply orb_true_iff in H as [->|H]; [reflexivity|]. rewrite (IH H). apply orb_true_r.
+  Qed.
+
   Lemma evP3_tok id m rsp past : is_tok_msg m = true -> evP3 E (ESend id m rsp) past = true.
   Proof. destruct m; [discriminate| |]; reflexivity. Qed.
 
@@ -213,8 +238,8 @@ Section C11.
       rewrite !returned_cons by reflexivity. rewrite T1. cbn [negb andb].
       rewrite !count_reg_cons by reflexivity. rewrite T2. cbn [Nat.eqb andb].
       rewrite !last_reg_cons by reflexivity. rewrite T3, T5.
-      rewrite before_phase_cons by reflexivity. cbn [before_phase is_marker]. rewrite Nat.eqb_refl. cbn [tl].
-      rewrite T6. reflexivity.
+      apply phase_issues_call in T6. apply (call_issues_cons id (EResume id)) in T6.
+      apply (call_issues_cons id (ERespClose id)) in T6. rewrite T6. reflexivity.
   Qed.
 
   Theorem P3_holds l : all_ok (evP3 E) (history (run E l)) = true.
